@@ -68,33 +68,57 @@ theorem drain_steps (f : Bool) (p : List UInt8) : (drain f p).length ≤ p.lengt
     | more => rw [drain]; split <;> rename_i h' <;> rw [hs] at h' <;> first | cases h' | simp
     | stop => rw [drain]; split <;> rename_i h' <;> rw [hs] at h' <;> first | cases h' | simp
 
+/-- the same with the too-long test of the repaired split function (`drainL`) -/
+theorem drainL_steps (f : Bool) (p : List UInt8) : (drainL f p).1.length ≤ p.length := by
+  induction hn : p.length using Nat.strongRecOn generalizing p with
+  | _ n ih =>
+    cases hl : (f && lineTooLong p) with
+    | true =>
+      have hf : f = true := by cases f <;> simp_all
+      subst hf
+      rw [drainL_long (by simpa using hl)]; simp
+    | false =>
+      by_cases hp : p = []
+      · subst hp; rw [drainL_nil]; simp
+      · obtain ⟨adv, tk, hs⟩ := splitLine_eof_tok f hp
+        rw [drainL_tok hl hs]
+        have hlt := drop_tok_lt hs
+        have := ih _ (by subst hn; exact hlt) (p.drop adv) rfl
+        simp only [List.length_cons]; omega
+
 /-- **Linear step bound of the line scanner**: under every delivery schedule the number of tokens
     (= iterations of the reader's loop) is at most the number of bytes delivered -/
 theorem scan_steps (f : Bool) (p : List UInt8) (cs : List (List UInt8)) (e : End) (k : Nat) :
     (scan f p cs e k).1.length ≤ p.length + cs.flatten.length := by
   induction cs generalizing p k with
-  | nil => rw [scan_nil]; simpa using drain_steps f p
+  | nil => rw [scan_nil]; simpa using drainL_steps f p
   | cons c cs ih =>
     induction hn : p.length using Nat.strongRecOn generalizing p k with
     | _ n ihn =>
+      cases hl : (f && lineTooLong p) with
+      | true =>
+        have hf : f = true := by cases f <;> simp_all
+        subst hf
+        rw [scan_long (by simpa using hl)]; simp
+      | false =>
       cases hs : splitLine f p false with
       | stop => exact absurd hs (splitLine_noeof_ne_stop f p)
       | more =>
-        rw [scan_more hs]
+        rw [scan_more hl hs]
         split
         · simp
         · split
           · split
-            · have := drain_steps f p; simp at this ⊢; omega
+            · have := drainL_steps f p; simp at this ⊢; omega
             · have := ih p (k + 1); simp at this ⊢; omega
           · split
-            · have := drain_steps f p; simp at this ⊢; omega
+            · have := drainL_steps f p; simp at this ⊢; omega
             · have := ih (p ++ c) 0; simp at this ⊢; omega
       | tok adv tk =>
         have hne := splitLine_tok_ne_nil hs
         have h0 := tok_adv_pos hs
         have hle := splitLine_adv_le hs
-        rw [scan_tok hs]
+        rw [scan_tok hl hs]
         have hlt : (p.drop adv).length < n := by
           subst hn
           cases p with
